@@ -217,6 +217,23 @@ pub fn features() -> Vec<(&'static str, Vec<Item>)> {
                 Item::Defm { name: Some("i3".into()), parents: vec![CRef::with("MB", vec![int(3)])] },
             ],
         ),
+        (
+            // global variables used inside a multiclass body: in a def's parent arguments and fields, in a nested defm
+            "multiclass-uses-globals",
+            vec![
+                Item::Multiclass {
+                    doc: vec![],
+                    name: "MG".into(),
+                    targs: vec![ti("k")],
+                    parents: vec![],
+                    body: vec![
+                        def("_g", vec![a_of(vec![id("gi"), id("gs")])], Some(vec![f(Ty::Int, "viag", bang("!add", vec![id("gi"), id("k")])), f(list(Ty::Int), "vl", id("gl"))])),
+                        Item::Defm { name: Some("_n".into()), parents: vec![CRef::with("MA", vec![id("gi"), id("gs")])] },
+                    ],
+                },
+                Item::Defm { name: Some("ig".into()), parents: vec![CRef::with("MG", vec![int(1)])] },
+            ],
+        ),
         ("foreach-list", vec![Item::Foreach { var: "i".into(), list: E::List(vec![int(1)]), body: vec![def("fe", vec![a_of(vec![id("i")])], Some(vec![f(Ty::Int, "twice", bang("!add", vec![id("i"), id("i")]))]))], braces: false }]),
         ("foreach-var-list", vec![Item::Foreach { var: "i".into(), list: id("gl"), body: vec![Item::Def { doc: vec![], blank: false, name: None, parents: vec![a_of(vec![id("i"), s("r")])], body: None }], braces: true }]),
         (
